@@ -247,7 +247,7 @@ def rule_sensors(cx, rid):
     ult = mod("Sensors/Ultrasonic.py")
     for m in (btn, pot, ult):
         cx.consulted(m)
-    r = cx.rule(rid, "Button.is_pressed samples its signal once, fires on_click under (pressed and not previous) before updating the previous sample; what the sensors return and raise is decided by evaluation in the INPUTS rule", floor=6)
+    r = cx.rule(rid, "who may write the Button's state: the previous sample belongs to the sampling method (and its private helpers), the raw level to set_pressed, handler and provider to the constructor; sampling, click dispatch and return values are decided by evaluation over signal histories (CLICKS / INPUTS rules)", floor=4)
     bc = btn.cls("Button")
     meths = {f.name: f for f in bc.body if isinstance(f, ast.FunctionDef)}
     ip = meths.get("is_pressed")
@@ -265,57 +265,8 @@ def rule_sensors(cx, rid):
                         if isinstance(x, ast.Attribute) and norm(x.value) == "self" and isinstance(x.ctx, ast.Store) and x.attr in WRITERS:
                             ok_w = name in WRITERS[x.attr] or (x.attr == "_was_pressed" and name in helper_of_is_pressed)
                             r.check(ok_w, f"Button.{name}/writes[{x.attr}]", (btn, n), f"`{stmt_key(n)}` in Button.{name}(): {x.attr} may only be written by {sorted(WRITERS[x.attr])}; the edge detector compares consecutive *samples*, so state changes between two polls must not touch it", sample=f"Button.{name} writes {x.attr}")
-    # summarise provider calls of helper methods / properties
-    def provider_weight_fn(depth=0):
-        summ = {}
-        for name, f in meths.items():
-            if name in ("is_pressed", "__init__"):
-                continue
-            w = Weighted(lambda x: (1, 1) if isinstance(x, ast.Call) and norm(x.func) == "self._state_provider" else None).run_function(f, (0, 0))
-            ex_ = exits_of(w, f)
-            if ex_:
-                summ[name] = (min(e[0] for e in ex_), max(e[1] for e in ex_))
-        return summ
-    props = {n for n, f in meths.items() if any(dotted(d) == "property" for d in f.decorator_list)}
-    summ = {}
-
-    def w_(x):
-        if isinstance(x, ast.Call) and norm(x.func) == "self._state_provider":
-            return (1, 1)
-        if isinstance(x, ast.Call) and isinstance(x.func, ast.Attribute) and norm(x.func.value) == "self" and x.func.attr in summ and x.func.attr not in props:
-            return summ[x.func.attr] if summ[x.func.attr][1] else None
-        if isinstance(x, ast.Attribute) and norm(x.value) == "self" and x.attr in props and isinstance(x.ctx, ast.Load):
-            return summ.get(x.attr) if summ.get(x.attr, (0, 0))[1] else None
-        return None
-
-    for _round in range(4):  # summaries of helpers/properties, to a fixpoint
-        for name, f in meths.items():
-            if name in ("is_pressed", "__init__"):
-                continue
-            ex_ = exits_of(Weighted(w_).run_function(f, (0, 0)), f)
-            if ex_:
-                summ[name] = (min(e[0] for e in ex_), max(e[1] for e in ex_))
-    wc = Weighted(w_).run_function(ip, (0, 0))
-    ex = exits_of(wc, ip)
-    ip = inline_self_calls(meths, ip)  # the ordering rules below look through private helpers
-    r.check(bool(ex) and all(e[1] <= 1 for e in ex), "Button.is_pressed/samples-provider-at-most-once", (btn, ip), f"the state provider can be sampled {max(e[1] for e in ex) if ex else '?'} times in one is_pressed() call: the edge test and the stored sample would disagree")
-    # order: click dispatch under the edge predicate precedes the store of _was_pressed
-    tr = CondTrace(lambda s: (isinstance(s, ast.Expr) and isinstance(s.value, ast.Call) and "_on_click" in norm(s.value.func)) or (isinstance(s, ast.Assign) and norm(s.targets[0]) == "self._was_pressed"),
-                   marks=lambda s: {"stored_prev"} if isinstance(s, ast.Assign) and norm(s.targets[0]) == "self._was_pressed" else set())
-    tr.run_function(ip, frozenset({frozenset()}))
-    clicks = [(s, st) for s, st in tr.hits if isinstance(s, ast.Expr)]
-    stores = [(s, st) for s, st in tr.hits if isinstance(s, ast.Assign)]
-    r.check(len(clicks) >= 1 and len(stores) >= 1, "Button.is_pressed/edge-logic-present", (btn, ip), "is_pressed no longer calls on_click / stores the previous sample in its own body")
-    for s, st in clicks:
-        for alt in st:
-            cs = conds(alt)
-            edge = any(("not self._was_pressed" in t or "self._was_pressed" in t) for t, _ in cs) and any(t.startswith("pressed") and tv for t, tv in cs)
-            prev_false = ("self._was_pressed", False) in cs or ("not self._was_pressed", True) in cs
-            cur_true = ("pressed", True) in cs or ("self.pressed", True) in cs
-            r.check(prev_false and cur_true, "Button.is_pressed/click-only-on-rising-edge", (btn, s), f"on_click runs under {sorted(cs)}; expected: pressed and not previously pressed")
-            r.check("stored_prev" not in alt, "Button.is_pressed/edge-test-before-update", (btn, s), "the previous sample is overwritten before the edge test")
-    for s, st in stores:
-        r.check(norm(s.value) in ("pressed", "self.pressed"), "Button.is_pressed/stores-current-sample", (btn, s), f"_was_pressed is set to `{norm(s.value)}`")
+    # how often the provider is sampled, when on_click fires and what is stored are decided by evaluation over signal
+    # histories (C15-CLICKS with a counting provider, C20-INPUTS through set_pressed)
     return r
 
 
@@ -485,6 +436,33 @@ def rule_host_inputs_eval(cx, rid):
                 n_bad += 1
                 if n_bad <= 3:
                     r.fail("Button/clicks=rising-edges-of-the-sampled-level", (btn, btn.func("Button.is_pressed")), f"history {' '.join(hist)}: {bad}", detail={"history": list(hist)})
+                else:
+                    r.stat.obligations += 1
+                    r.stat.failed += 1
+
+    # Button through a state provider: every signal of up to 6 samples (one per poll)
+    for L in range(1, 7):
+        for sig in itertools.product((False, True), repeat=L):
+            clicks, log = [], []
+            cb_ = lambda _c=clicks: _c.append(1)
+            cb_._dl_lambda = True
+            o = c04.host_object(btn, "Button", 7, on_click=cb_, state_provider=provider(list(sig), log))
+            vals, bad = [], None
+            for _i in range(L):
+                out = call(btn, "Button.is_pressed", [o])
+                if out.kind != "return":
+                    bad = f"is_pressed raises {out.value}"
+                    break
+                vals.append(out.value)
+            want_clicks = sum(1 for i_, s_ in enumerate(sig) if s_ and not (sig[i_ - 1] if i_ else False))
+            if bad is None and (len(clicks) != want_clicks or vals != [1 if s_ else 0 for s_ in sig] or len(log) != L):
+                bad = f"on_click ran {len(clicks)} time(s), is_pressed returned {vals} after {len(log)} sample(s); the signal has {want_clicks} rising edge(s), levels {[1 if s_ else 0 for s_ in sig]}, one sample per poll"
+            if bad is None:
+                r.ok(None)
+            else:
+                n_bad += 1
+                if n_bad <= 3:
+                    r.fail("Button/clicks=rising-edges-of-the-provided-signal", (btn, btn.func("Button.is_pressed")), f"provider signal {[int(s_) for s_ in sig]}: {bad}", detail={"signal": [int(s_) for s_ in sig]})
                 else:
                     r.stat.obligations += 1
                     r.stat.failed += 1
